@@ -258,7 +258,7 @@ func c06Case(r *verifkit.R, phase string, ci int, rng *verifkit.Rand, profile st
 	r.Add("send_errors", len(s.SendErrs))
 	r.Add("cases_"+class, 1)
 	r.Eval(fmt.Sprintf("%s|%d|%d|%x", profile, n, len(sets[1]), rng.U64()), n > 0)
-	if vio == 0 && n > 0 && r.NeedSample() {
+	if n > 0 && r.NeedSample() {
 		r.Sample(map[string]any{"scenario": desc, "frames": len(s.Sent), "first_routes": sets[0][:min(3, len(sets[0]))]})
 	}
 }
